@@ -152,7 +152,7 @@ def check_case(case, rec):
 def gen_case(draw):
     label = st.one_of(st.sampled_from(C.DESCRIPTOR_NAMES), st.sampled_from(N.evtgen_safe()),
                       N.synthetic_label(max_size=7).filter(C.descriptor_safe))
-    c = draw(C.chain_case(max_decaying=8, max_daughters=4, max_mult=2, names=label, bf=False))
+    c = draw(C.chain_case(max_decaying=8, max_daughters=4, max_mult=2, names=label, bf=True))
     pk = draw(st.integers(0, 3))
     pat = None
     if pk == 1:
